@@ -203,7 +203,9 @@ def chains_batch(acc, batch):
 
 INPUT_KINDS = {"file": True, "dir": True, "symlink_to_file": True, "symlink_to_dir": True, "empty_file": True, "missing": False, "broken_symlink": False,
                # no file of that name can exist: a path component is a regular file / the name is a symbolic link that points at itself
-               "under_a_file": False, "symlink_loop": False}
+               "under_a_file": False, "symlink_loop": False,
+               # an ordinary file dated exactly the epoch (tar --mtime=@0, some checkouts and restores) / before it
+               "epoch_file": True, "pre_epoch_file": True}
 
 
 def realfs_batch(acc, batch):
@@ -234,6 +236,9 @@ def realfs_batch(acc, batch):
             os.symlink("nowhere", p)
         elif kind == "symlink_loop":
             os.symlink("inp", p)
+        elif kind in ("epoch_file", "pre_epoch_file"):
+            open(p, "w").write("x")
+            os.utime(p, (0, 0) if kind == "epoch_file" else (-86400, -86400))
         elif kind == "under_a_file":
             open(os.path.join(base, "plain"), "w").write("x")
             p = os.path.join(base, "plain", "inp")
